@@ -124,6 +124,14 @@ SKELETONS = {
 # single-file skeletons without C01-level known deviations: the generated root is also compared with ref6 on the source
 REF6_SKELETONS = {"object_under_not", "root_def_def", "shared_def", "untitled_nested", "repeated_titles", "nested_literals", "equal_shapes_different_titles", "boolean_subschemas"}
 
+# documents generated one after the other in ONE process: same root title / property names / structure, children titled differently
+SKELETONS["seq_alpha"] = ({"doc.json": {"type": "object", "title": "Root", "properties": {
+    "child": {"type": "object", "title": "Alpha", "properties": {"n": {"type": "integer", "minimum": 0}}}, "other": {"type": "object", "title": "Gamma", "required": ["g"]}}}},
+    "doc.json", '{"child": ({"n": x} if h1 else {}), **({"other": ({"g": y} if y > 0 else {})} if h2 else {})}')
+SKELETONS["seq_beta"] = ({"doc.json": {"type": "object", "title": "Root", "properties": {
+    "child": {"type": "object", "title": "Beta", "properties": {"n": {"type": "integer", "minimum": 0}}}, "other": {"type": "object", "title": "Alpha", "required": ["g"]}}}},
+    "doc.json", '{"child": ({"n": x} if h1 else {}), **({"other": ({"g": y} if y > 0 else {})} if h2 else {})}')
+
 _CNT = [0]
 
 
@@ -165,7 +173,9 @@ def generate(name):
     if _tracing():
         from crosshair.tracers import NoTracing
 
-        with NoTracing():
+        from vf.prelude import real_hash
+
+        with NoTracing(), real_hash():
             return go()
     return go()
 
@@ -238,6 +248,15 @@ def equivalent(name, v):
     return True
 
 
+def equivalent_after(first, name, v):
+    """the document `first` was generated (and its module executed) earlier in the same process"""
+    from vf.common import exec_generated
+
+    text, _parsed = generate(first)
+    exec_generated(text)
+    return equivalent(name, v)
+
+
 def accepted(name, v):
     from vf.common import accepts
 
@@ -247,12 +266,16 @@ def accepted(name, v):
 
 def harnesses(ctx) -> List[H]:
     hs: List[H] = []
-    quick = {"root_def_def", "shared_def", "cross_file", "untitled_nested", "repeated_titles", "defaults_equal_to_constructor", "renamed_and_literals", "boolean_subschemas", "false_only_in_single_positions", "equal_shapes_different_titles", "nested_literals", "object_under_not"}
+    quick = {"seq_alpha", "seq_beta", "root_def_def", "shared_def", "cross_file", "untitled_nested", "repeated_titles", "defaults_equal_to_constructor", "renamed_and_literals", "boolean_subschemas", "false_only_in_single_positions", "equal_shapes_different_titles", "nested_literals", "object_under_not"}
     for name, (_files, _entry, build) in SKELETONS.items():
         hs.append(mk(f"c02_{name}", "x: int, y: int, h1: bool, h2: bool", [], f"v = {build}\nreturn equivalent({name!r}, v)", timeout=200, group="skeleton",
                      tier="quick" if name in quick else "thorough", covers=f"skeleton {name}: main() output executes, defines the parser's classes (equal), root verdict/result equal for the value family {build}"))
         hs.append(mk(f"c02_{name}__acc", "x: int, y: int, h1: bool, h2: bool", [], f"v = {build}\nreturn not accepted({name!r}, v)", kind="witness", timeout=60, group="skeleton",
                      tier="quick" if name in quick else "thorough"))
+    for first, second in (("seq_alpha", "seq_beta"), ("seq_beta", "seq_alpha"), ("equal_shapes_different_titles", "seq_alpha")):
+        build = SKELETONS[second][2]
+        hs.append(mk(f"c02_after_{first}_then_{second}", "x: int, y: int, h1: bool, h2: bool", [], f"v = {build}\nreturn equivalent_after({first!r}, {second!r}, v)", timeout=200, group="sequence",
+                     covers=f"{second} generated after {first} in the same process (same root title, property names and structure; children titled differently)"))
     # flat skeleton with a fully symbolic dict value
     hs.append(mk("c02_flat_symbolic_dict", "v: Dict[str, int]", ["len(v) <= 2", "all(k in ('a b', 'undeclared', '$id', 'zz') for k in v)"],
                  "return equivalent('renamed_and_literals', v)", timeout=300, group="skeleton", covers="renamed_and_literals with a symbolic Dict[str,int] value"))
